@@ -18,11 +18,12 @@
     registered thread.
     [called], [registered], [registered_before_close], [ended], [close_results],
     [monitor_exits], [first_raised] are functions of the observable history alone
-    (Inv.ghost_of).
+    (Inv.ghost_of); so is [registered_while_close_waits] (Late.late_of): the threads that
+    registered after close() was called while it was still waiting for an earlier one.
     Task half.  Model: DoneCb/Task.v (sequential); every operation sequence = every
     completion order; hypothesis [twf]: no task is registered again after it ended. *)
 From NL Require Import DoneCb.Model DoneCb.Safety DoneCb.Inv DoneCb.Main
-                       DoneCb.Live DoneCb.Term DoneCb.Progress
+                       DoneCb.Live DoneCb.Term DoneCb.Progress DoneCb.Late
                        DoneCb.Task DoneCb.TaskProofs.
 
 (** tie: the model's programs are exactly the shared accesses of the regenerated skeleton *)
@@ -157,6 +158,76 @@ Example C18_example_progress :
   /\ enabled nobody (run nobody pre_closed) Mon.
 Proof. exact (conj all_ended_example (conj steps_only_rest example_progress)). Qed.
 
+(** ---- late registrations ("no matter when other threads register").
+    [registered_while_close_waits raises ls] (DoneCb/Late.v, a function of the observable history
+    alone): the threads whose register() returned after close() was called, at a point of the
+    history where some thread registered before the call had not yet been called back -- i.e.
+    while close() was still waiting.  C18_late_registration_spec restates the definition with
+    prefixes of the schedule, without the ghost. *)
+Theorem C18_late_registration_spec : forall raises ls t,
+  In t (registered_while_close_waits raises ls) <->
+  exists ls1 ls2, ls = ls1 ++ Step (Reg t) :: ls2 /\
+    In (EvRegistered t) (evs_of (snd (step raises (run raises ls1) (Step (Reg t))))) /\
+    exists u, In u (registered_before_close raises ls1) /\ ~ In u (called raises ls1).
+Proof. exact late_spec. Qed.
+
+(** they are registered threads, distinct from those registered before the call *)
+Theorem C18_late_registration_disjoint : forall raises ls t,
+  In t (registered_while_close_waits raises ls) ->
+  In t (registered raises ls) /\ ~ In t (registered_before_close raises ls).
+Proof. exact late_registered. Qed.
+
+(** once close() has returned, every thread registered before close() was called AND every thread
+    that registered while close() was still waiting for one of those has ended and its callback
+    was invoked exactly once (for every schedule, every number of threads, every [raises]) *)
+Theorem C18_late_registration_exactly_once : forall raises ls e,
+  In e (close_results raises ls) ->
+  forall t, In t (registered_before_close raises ls ++ registered_while_close_waits raises ls) ->
+    count_occ Nat.eq_dec (called raises ls) t = 1 /\ In t (ended raises ls).
+Proof. exact all_exactly_once. Qed.
+
+(** close() returns only after all of them have ended and been called back ... *)
+Theorem C18_late_registration_close_waits : forall raises ls e,
+  In e (close_results raises ls) ->
+  forall t, In t (registered_before_close raises ls ++ registered_while_close_waits raises ls) ->
+    In t (called raises ls) /\ In t (ended raises ls).
+Proof. exact all_close_waits. Qed.
+
+(** ... because the monitor thread itself does not end before *)
+Theorem C18_late_registration_monitor_waits : forall raises ls e,
+  In e (monitor_exits raises ls) ->
+  forall t, In t (registered_before_close raises ls ++ registered_while_close_waits raises ls) ->
+    In t (called raises ls) /\ In t (ended raises ls).
+Proof. exact late_monitor_waits. Qed.
+
+(** non-vacuity: thread 2 registers during close()'s wait -- while the callback for thread 1 is
+    pending (1 already removed from `_active`), resp. while 1 is still alive -- and is called back
+    before close() returns; if its callback raises, close() re-raises that *)
+Example C18_late_registration_example_nonvacuous :
+  (m_pc (run nobody (reg4 1 ++ [Die 1] ++ close4 ++ mon 10)) = MCallback
+   /\ close_results nobody w_late_pending = [None]
+   /\ registered_before_close nobody w_late_pending = [1]
+   /\ registered_while_close_waits nobody w_late_pending = [2]
+   /\ called nobody w_late_pending = [2; 1] /\ ended nobody w_late_pending = [2; 1])
+  /\ (close_results nobody w_late_alive = [None]
+      /\ registered_before_close nobody w_late_alive = [1]
+      /\ registered_while_close_waits nobody w_late_alive = [2]
+      /\ called nobody w_late_alive = [2; 1] /\ ended nobody w_late_alive = [2; 1])
+  /\ (close_results only2 w_late_pending = [Some (ExCb 2)]
+      /\ registered_while_close_waits only2 w_late_pending = [2]
+      /\ called only2 w_late_pending = [2; 1]).
+Proof. exact example_late. Qed.
+
+(** the hypothesis is needed: a thread whose register() returns after everything close() waited for
+    was called back and the monitor thread ended is never called back (outside close()'s contract) *)
+Example C18_late_registration_example_boundary :
+  close_results nobody w_after_exit = [None]
+  /\ registered_before_close nobody w_after_exit = [1]
+  /\ registered_while_close_waits nobody w_after_exit = []
+  /\ registered nobody w_after_exit = [2; 1] /\ ended nobody w_after_exit = [2; 1]
+  /\ called nobody w_after_exit = [1].
+Proof. exact example_after_exit. Qed.
+
 (** task half: exactly once for every task registered and ended, for every completion order *)
 Theorem C18_task_exactly_once : forall raises os, twf os ->
   NoDup (tcalled (touts raises os)) /\
@@ -218,6 +289,13 @@ Print Assumptions C18_bounded_after_end.
 Print Assumptions C18_stuck_means_returned.
 Print Assumptions C18_close_can_return.
 Print Assumptions C18_example_progress.
+Print Assumptions C18_late_registration_spec.
+Print Assumptions C18_late_registration_disjoint.
+Print Assumptions C18_late_registration_exactly_once.
+Print Assumptions C18_late_registration_close_waits.
+Print Assumptions C18_late_registration_monitor_waits.
+Print Assumptions C18_late_registration_example_nonvacuous.
+Print Assumptions C18_late_registration_example_boundary.
 Print Assumptions C18_task_exactly_once.
 Print Assumptions C18_task_close_waits.
 Print Assumptions C18_example_former_witnesses.
